@@ -96,6 +96,20 @@ def _mk_truthy_str(v):
     return [(i, "yes" if x else "") for i, x in enumerate(v)], _AttrValidator(lambda f: f[1])
 
 
+def _mk_none_verdict(v):
+    # a predicate without an explicit `return False`: invalid frames get None
+    def pred(f):
+        if f[1]:
+            return True
+
+    return [(i, bool(x)) for i, x in enumerate(v)], pred
+
+
+def _mk_seq_frames(v):
+    # frames that are themselves sequences of several items (blocks of samples, multi-character strings)
+    return [("LOUD%d" % i) if x else ("quiet%d" % i) for i, x in enumerate(v)], (lambda f: f[0] == "L")
+
+
 FRAME_KINDS = {
     "char": _mk_char,
     "tuple": _mk_tuple,
@@ -106,6 +120,8 @@ FRAME_KINDS = {
     "list": _mk_list,
     "numpy": _mk_numpy,
     "truthy_str": _mk_truthy_str,
+    "none_verdict": _mk_none_verdict,
+    "seq_frames": _mk_seq_frames,
 }
 KIND_NAMES = tuple(FRAME_KINDS)
 DELIVERY = ("list", "generator", "callback")
